@@ -80,6 +80,34 @@ func convertSchema(schema *schema_j5pb.Field) (*Schema, error) {
 	case *schema_j5pb.Field_Bool:
 		out.SchemaItem.Type = convertBooleanItem(t.Bool)
 
+	case *schema_j5pb.Field_Key:
+		out.SchemaItem.Type = convertKeyItem(t.Key)
+
+	case *schema_j5pb.Field_Bytes:
+		item := &StringItem{
+			Format: Value("byte"),
+		}
+		if t.Bytes.Rules != nil {
+			item.MinLength = Maybe(t.Bytes.Rules.MinLength)
+			item.MaxLength = Maybe(t.Bytes.Rules.MaxLength)
+		}
+		out.SchemaItem.Type = item
+
+	case *schema_j5pb.Field_Date:
+		out.SchemaItem.Type = &StringItem{
+			Format: Value("date"),
+		}
+
+	case *schema_j5pb.Field_Decimal:
+		out.SchemaItem.Type = &StringItem{
+			Format: Value("number"),
+		}
+
+	case *schema_j5pb.Field_Timestamp:
+		out.SchemaItem.Type = &StringItem{
+			Format: Value("date-time"),
+		}
+
 	case *schema_j5pb.Field_Array:
 		out.SchemaItem.Type, err = convertArrayItem(t.Array)
 		if err != nil {
@@ -145,6 +173,24 @@ func convertSchema(schema *schema_j5pb.Field) (*Schema, error) {
 	}
 
 	return out, nil
+}
+
+// convertKeyItem renders a key as the string it is on the wire, with the
+// format or pattern its key format implies.
+func convertKeyItem(item *schema_j5pb.KeyField) *StringItem {
+	out := &StringItem{}
+	if item.Format == nil {
+		return out
+	}
+	switch ft := item.Format.Type.(type) {
+	case *schema_j5pb.KeyFormat_Uuid:
+		out.Format = Value("uuid")
+	case *schema_j5pb.KeyFormat_Id62:
+		out.Format = Value("id62")
+	case *schema_j5pb.KeyFormat_Custom_:
+		out.Pattern = Value(ft.Custom.Pattern)
+	}
+	return out
 }
 
 func convertStringItem(item *schema_j5pb.StringField) *StringItem {
